@@ -347,7 +347,7 @@ def _wiring(prog, rep, fi, call):
             if not ok and not (isinstance(resolved(v), ast.Attribute) and src(resolved(v).value) == lp):
                 rep.undecided(f"{fi.name}:linprog(bounds=): fed from `{src(v)[:50]}`; neither {lp}.bounds nor extract_bounds(problem.variables)")
                 continue
-        rep.ob("R08.2", f"{fi.name}:linprog({field}=)", ok, (f"{field} = {lp}.{field}" if src(v) == f"{lp}.{field}" else f"{field} = extract_bounds(problem.variables), read on every solve in column order") if ok else f"{field} is fed from {src(v)} instead of {lp}.{field}", loc=f"{fi.module.rel}:{getattr(v, 'lineno', call.lineno)}", detail="fed-from-same-field")
+        rep.ob("R08.2", f"{fi.name}:linprog({field}=)", ok, (f"{field} = {lp}.{field}" if src(v) == f"{lp}.{field}" else f"{field} = extract_bounds(problem.variables), read on every solve in column order") if ok else f"{field} is fed from {src(v)} instead of {lp}.{field}", loc=f"{fi.module.rel}:{getattr(v, 'lineno', call.lineno)}", detail="fed-from-same-field", robust=ok or (isinstance(resolved(v), ast.Attribute) and src(resolved(v).value) == lp))   # another field of the same record in this role is positively wrong
     for a, b in (("A_ub", "b_ub"), ("A_eq", "b_eq")):
         if a in kws and b in kws:
             ga = sorted(src(t) for t, p in kws[a][0])
